@@ -18,9 +18,13 @@ type Clause struct {
 	Expr  string   // text after the first " : "
 	Line  int
 	Raw   string
+	Orig  []string // Words as written in the contracts file (obligation names use these; Words may follow a source rename)
 }
 
 func (c *Clause) Label() string {
+	if len(c.Orig) > 0 {
+		return c.Orig[len(c.Orig)-1]
+	}
 	if len(c.Words) > 0 {
 		return c.Words[len(c.Words)-1]
 	}
